@@ -61,6 +61,11 @@ def worlds(tier):
     # the model is still being loaded (usable from t=4) when the first requests arrive
     g, t = reqs(2, release=["sym", 0, 6], deadline=["sym", 0, 16])
     ws.append(w.W("2req-1model-b[1,2]-model-still-loading-until-4", g, GPU1, "CLOCKWORK", models={"M0": model([1, 2])}, tasks=t, loading={"0:0": {"M0": 4}}, split=6, weight=30, retry_loops=True))
+    # the load/evict thread is on: A is loaded (and fills the RAM) with a full batch waiting, B is wanted by more requests
+    gs = [w.G(f"G{i}", [f"Q{i}"], [], release=0, deadline=30 + i) for i in range(5)]
+    ts = {f"Q{i}": {"model": "MA" if i < 2 else "MB"} for i in range(5)}
+    ws.append(dict(w.W("direct-run_load-evicts-a-loaded-model-with-a-full-batch-waiting", gs, [[{"GPU": 1, "RAM": 10}]], "CLOCKWORK", models={"MA": model([2], rts={2: 3}), "MB": model([2], rts={2: 3})},
+                       tasks=ts, preload={"0:0": ["MA"]}, run_load=True, split=5, weight=10), kind="direct"))
     # a scheduler that is configured to take time itself (batch of two only: the first request waits for a partner)
     g, t = reqs(2, release=["sym", 0, 6], deadline=["sym", 0, 14])
     ws.append(w.W("2req-1model-b[2]-nonzero-scheduler-runtime", g, GPU1, "CLOCKWORK", models={"M0": model([2])}, tasks=t, preload={"0:0": ["M0"]}, split=6, weight=30, retry_loops=True,
@@ -84,7 +89,7 @@ def _opaque_demand(self):
     """Stand-in for Model.Request.get_demand under the engine: the two float demand figures are opaque
     fresh reals (they only feed the load/eviction priorities, which are off by default)."""
     env = harness.CUR_ENV
-    if env.concrete:
+    if env.concrete or getattr(_cw, "_VERIF_REAL_DEMAND", False):
         return _real_get_demand(self)
     return (env.real("load_demand"), env.real("exec_demand"))
 
@@ -95,7 +100,47 @@ _real_get_demand = _cw.Model.Request.get_demand
 _cw.Model.Request.get_demand = _opaque_demand
 
 
+def run_direct(env, world):
+    """One real ClockworkScheduler.schedule() call with the load/evict thread enabled, on a state built through the public API:
+    model A loaded on the only worker (it takes all the RAM) with a full batch queued, model B not loaded with more requests.
+    Whatever the call decides about loading, a batch may only be placed for a model that the same call does not evict."""
+    _cw._VERIF_REAL_DEMAND = True  # (flag kept on the scheduler module: this file may be loaded under two module names)
+    try:
+        return _run_direct(env, world)
+    finally:
+        _cw._VERIF_REAL_DEMAND = False
+
+
+def _run_direct(env, world):
+    from workload import Placement
+
+    W = simworld.build(env, world)
+    now = utils_ET(0)
+    for tn, t in W.tasks.items():
+        t.release(now)
+    pls = list(W.scheduler.schedule(now, W.workload, W.worker_pools))
+    evicted = {(p.worker_id, id(p.work_profile)) for p in pls if p.placement_type == Placement.PlacementType.EVICT_WORK_PROFILE}
+    placed = [p for p in pls if p.placement_type == Placement.PlacementType.PLACE_TASK and p.is_placed()]
+    for p in placed:
+        env.require("C15:model-loaded-on-worker", (p.worker_id, id(p.task.profile)) not in evicted,
+                    f"{p.task.name} placed on a worker from which the same schedule() call evicts its model")
+        mname = W.task_params[p.task.name]["model"]
+        wk = [w_ for (_, w_, _) in W.workers if w_.id == p.worker_id]
+        env.require("C15:model-loaded-on-worker", len(wk) == 1 and mname in W.preloaded[id(wk[0])], f"{p.task.name}: model {mname} not loaded there")
+    env.require("C15:direct-call-returns", True)
+    env.observe("decisions", sorted((p.placement_type.name, p.task.name if p.placement_type in (Placement.PlacementType.PLACE_TASK, Placement.PlacementType.CANCEL_TASK) else p.work_profile.name) for p in pls))
+    harness.finish_path(env)
+
+
+def utils_ET(t):
+    from utils import EventTime
+
+    return EventTime(t, EventTime.Unit.US)
+
+
 def run(env, world):
+    if world.get("kind") == "direct":
+        return run_direct(env, world)
     simworld.run(env, world, ORACLES)
 
 
